@@ -200,6 +200,9 @@ def cases(draw):
     length = draw(fl(0.2, 6.0))
     tf = t0 - length if back else t0 + length
     y0 = [draw(fl(0.2, 2.0)) * (1 if kind == "lv" else draw(st.sampled_from([1, -1]))) for _ in range(n)]
+    if kind == "lin" and not osc and draw(st.integers(0, 2)) == 0:
+        # components of different magnitudes above 1: finite-difference increments then differ from column to column
+        y0 = [v * 10.0 ** draw(st.integers(0, 3)) for v in y0]
     if int_ret:
         y0 = [float(draw(st.integers(-40, 40))) for _ in range(n)]
     e = draw(fl(3.0, 9.0))
